@@ -57,6 +57,7 @@ class C19(Prop):
                   "all code pairs, all categories in both port tables and the ports the two API classes and the default bridge really use.")
     level_note = "trusts the class->category table and the four port numbers quoted in the statement"
     assumptions = ["class-to-category table and port numbers as written in the statement"]
+    warnings_as_errors = False   # unknown models are *reported by a warning*: under an error filter that is an exception by design
     anchors = ["aioswitcher.device:SwitcherWaterHeater.__post_init__", "aioswitcher.device:SwitcherShutter.__post_init__",
                "aioswitcher.device:SwitcherThermostat.__post_init__", "aioswitcher.device:SwitcherPowerPlug.__post_init__"]
     min_evaluations = {"quick": 400, "thorough": 400}
@@ -211,6 +212,31 @@ class C19(Prop):
                 except OSError:
                     acc.count("workload_refused_connects")
                 await dev.start()
+                # the control port of this protocol type is closed while the other type's port listens on the same address
+                own_port = TCP[t]
+                await dev.stop_port(own_port)
+                nconn = len(dev.conns)
+                api_cls = self.api.SwitcherType1Api if t == 1 else self.api.SwitcherType2Api
+                probe = api_cls(dev.ip, "a1b2c3", "18")
+                acc.ev()
+                acc.distinct()
+                try:
+                    await probe.connect()
+                    went = probe._writer.get_extra_info("peername")
+                    acc.violation("wrong-tcp-port:after-use", f"SwitcherType{t}Api: port {own_port} refused the connection, the client is now connected to "
+                                  f"{went}", {"api": t, "got": went})
+                except OSError:
+                    acc.count("workload_refused_connects_other_port_open")
+                for _ in range(10):
+                    await asyncio.sleep(0)
+                if len(dev.conns) > nconn:
+                    acc.violation("wrong-tcp-port:after-use", f"SwitcherType{t}Api: with port {own_port} closed the device saw a connection on port "
+                                  f"{dev.conns[-1].port}", {"api": t, "got": dev.conns[-1].port})
+                try:
+                    await probe.disconnect()
+                except Exception:
+                    pass
+                await dev.start()
         finally:
             await trig.close()
 
@@ -289,6 +315,32 @@ class C19(Prop):
                             except Exception as exc:
                                 acc.violation("class-refuses-own-category", f"{cname}({t.name}) with {variant} raised {type(exc).__name__}: {exc}",
                                               {"class": cname, "type": t.name, "fields": str(variant)})
+                    # the same object built in the other ways Python allows: all positional, type positional + rest by keyword,
+                    # derived from an object of the right category with dataclasses.replace
+                    names = [f.name for f in dataclasses.fields(cls) if f.init]
+                    forms = {"positional": lambda: cls(*[kw[n_] for n_ in names]),
+                             "type-positional-rest-keyword": lambda: cls(kw[names[0]], **{n_: kw[n_] for n_ in names[1:]}),
+                             "keyword-reversed-order": lambda: cls(**{n_: kw[n_] for n_ in reversed(names)})}
+                    own = next(x for x in types if x.category.name == cat)
+                    try:
+                        base = cls(**dict(kw, device_type=own))
+                        forms["dataclasses.replace"] = lambda: dataclasses.replace(base, device_type=t)
+                    except Exception:
+                        pass
+                    for form, fn in forms.items():
+                        acc.ev()
+                        acc.distinct()
+                        try:
+                            fn()
+                            acc2 = True
+                        except ValueError:
+                            acc2 = False
+                        except Exception as exc:
+                            acc.violation("constructor-crashed", f"{cname}({t.name}) built as {form} raised {type(exc).__name__}: {exc}", {"class": cname, "type": t.name, "form": form})
+                            continue
+                        if acc2 != should:
+                            acc.violation(f"class-accepts-wrong-category:{form}", f"{cname} built as {form} {'accepted' if acc2 else 'refused'} {t.name} "
+                                          f"(category {t.category.name})", {"class": cname, "type": t.name, "form": form})
                     if accepted != should:
                         acc.violation("class-accepts-wrong-category",
                                       f"{cname} {'accepted' if accepted else 'refused'} {t.name} (category {t.category.name})",
